@@ -126,7 +126,7 @@ def gen_ops(kind, seed, ncases, length, profile, blackbox=False):
     return out
 
 
-def run_impl(ops, timeout=600):
+def run_impl(ops, timeout=150):
     try:
         rc, out, err = run(limited([HBIN, "run"]), inp=ops, timeout=timeout)
     except subprocess.TimeoutExpired:
@@ -136,7 +136,7 @@ def run_impl(ops, timeout=600):
     return out, None
 
 
-def run_model(ops, timeout=600):
+def run_model(ops, timeout=300):
     try:
         rc, out, err = run(limited([DRIVER, "model"]), inp=ops, timeout=timeout)
     except subprocess.TimeoutExpired:
@@ -315,6 +315,19 @@ def worker(args):
     res = {"kind": kind, "seed": seed, "profile": profile, "ncases": ncases, "ierr": ierr,
            "merr": merr, "disagree": [], "oracle_fail": [], "nontrivial": 0, "ops": 0,
            "hist": {}, "sample": None}
+    if impl is None and ierr == "hang":
+        # isolate the hanging case(s): run each case alone under a short watchdog
+        for idx, c in enumerate(split_cases(ops)):
+            out, e = run_impl("\n".join(c) + "\n", timeout=8)
+            if out is None:
+                res["oracle_fail"].append({"case": idx, "verdict": "hang", "ops": c})
+                if len(res["oracle_fail"]) >= 2:
+                    break
+        res["hang"] = True
+        if not res["oracle_fail"]:
+            res["fatal"] = "implementation batch did not finish (no single case hangs alone)"
+            res["ops_text"] = ops
+        return res
     if impl is None or model is None:
         res["fatal"] = ierr or merr
         res["ops_text"] = ops
@@ -355,8 +368,8 @@ def worker(args):
 def judge_case(prop, ops_lines, mode, oracle_id):
     """Runs one case; returns (oracle_ok, agrees, impl_trace, model_trace)."""
     ops = "\n".join(op_of(l) for l in ops_lines) + "\n"
-    impl, ierr = run_impl(ops, timeout=120)
-    model, merr = run_model(ops, timeout=120)
+    impl, ierr = run_impl(ops, timeout=8)
+    model, merr = run_model(ops, timeout=60)
     if impl is None:
         return False, False, "hang", model or ""
     ic = split_cases(impl)
@@ -504,7 +517,11 @@ def main():
         if len(violations) >= 2:
             break
         lines = f["ops"]
-        small = minimize(lines, lambda ls: not judge_case(prop, ls, mode, oracle_id)[0])
+        if f.get("verdict") == "hang":
+            # each trial costs a watchdog period: shrink with a small budget
+            small = shrink(lines, lambda ls: not judge_case(prop, ls, mode, oracle_id)[0], budget=25)
+        else:
+            small = minimize(lines, lambda ls: not judge_case(prop, ls, mode, oracle_id)[0])
         k = match_known(prop, small, known)
         sig = hashlib.sha1("\n".join(op_of(x) for x in small).encode()).hexdigest()[:10]
         if k:
